@@ -161,6 +161,81 @@ Theorem C17_storable_bool_sound : forall v, storable B8 v = true ->
 Proof. exact storable_bool_sound. Qed.
 Print Assumptions C17_storable_bool_sound.
 
+(** ** (f) configuration of the adjustment object (keyword arguments handed to the regression model)
+
+    The adjusted values are a function of X = summaries - observed, theta and the coefficient vector
+    ([C17_adjust_param_spec], for EVERY [b]): no configuration enters.  The configuration only says
+    which coefficient vectors are admissible ([fit_ok]); [copy_X] and [n_jobs] are not part of that. *)
+Theorem C17_fit_ok_default : forall cfg Xf thf b0 b,
+  cf_fit_intercept cfg = true -> cf_positive cfg = false ->
+  fit_ok cfg Xf thf b0 b = normal_eq_ok Xf thf b0 b.
+Proof. exact fit_ok_default. Qed.
+Print Assumptions C17_fit_ok_default.
+
+Theorem C17_fit_ok_same_problem : forall a b' Xf thf b0 b,
+  same_problem a b' = true -> fit_ok a Xf thf b0 b = fit_ok b' Xf thf b0 b.
+Proof. exact fit_ok_same_problem. Qed.
+Print Assumptions C17_fit_ok_same_problem.
+
+(** what the per-case clause means: no intercept -> intercept_ = 0 and the normal equations of [X];
+    positive -> slope >= 0, gradient >= 0 where the slope entry is 0, = 0 where it is positive *)
+Theorem C17_fit_ok_sound : forall cfg Xf thf b0 b, fit_ok cfg Xf thf b0 b = true ->
+  (cf_fit_intercept cfg = false -> b0 == 0)
+  /\ (cf_fit_intercept cfg = true -> Qabs (grad Xf thf b0 b 0) <= grad_lim Xf thf b0 b 0)
+  /\ forall j, (1 <= j <= length b)%nat ->
+       (cf_positive cfg = false -> Qabs (grad Xf thf b0 b j) <= grad_lim Xf thf b0 b j)
+       /\ (cf_positive cfg = true ->
+           0 <= nth (pred j) b 0
+           /\ - grad_lim Xf thf b0 b j <= grad Xf thf b0 b j
+           /\ (~ nth (pred j) b 0 == 0 -> Qabs (grad Xf thf b0 b j) <= grad_lim Xf thf b0 b j)).
+Proof. exact fit_ok_sound. Qed.
+Print Assumptions C17_fit_ok_sound.
+
+(** the object's X attribute after adjust(): shape, non-finite pattern and numbers of summaries - observed *)
+Theorem C17_x_attr_sound : forall X Xi, x_attr_ok X Xi = true ->
+  length Xi = length X /\
+  forall i, (i < length X)%nat ->
+    length (nth i Xi []) = length (nth i X []) /\
+    forall j, (j < length (nth i X []))%nat ->
+      match nth j (nth i X []) None, nth j (nth i Xi []) None with
+      | Some x, Some y => Qabs (x - y) <= tol_formula * (1 + Qabs x)
+      | None, None => True
+      | _, _ => False
+      end.
+Proof. exact x_attr_sound. Qed.
+Print Assumptions C17_x_attr_sound.
+
+Theorem C17_x_attr_model : forall X, x_attr_ok X X = true.
+Proof. exact x_attr_model. Qed.
+Print Assumptions C17_x_attr_model.
+
+(** fit, then any number of adjust() calls: X is still summaries - observed and every call returns
+    the arrays of [adjust_all] (the model has no state that a fit or an adjust could spoil) *)
+Theorem C17_fit_adjust_state : forall summ obs thetas bs n,
+  let st := fit_state summ obs thetas bs in
+  st_X (fst (adjust_calls n st thetas)) = input_variables summ obs
+  /\ snd (adjust_calls n st thetas) = repeat (adjust_all (input_variables summ obs) thetas bs) n.
+Proof. exact fit_adjust_state. Qed.
+Print Assumptions C17_fit_adjust_state.
+
+(** non-vacuity: theta = [1;2;4] on x = [1;2;3]: (b0, b) = (-2/3, 3/2) is the fit with intercept,
+    (0, 17/14) the fit through the origin; neither passes for the other configuration.  theta = [4;2;1]:
+    the non-negative fit with intercept is (7/3, 0) (the unconstrained slope -3/2 is rejected). *)
+Example C17_example_config :
+  let Xf := [[1]; [2]; [3]] in
+  let noic := {| cf_fit_intercept := false; cf_copy_X := false; cf_positive := false; cf_n_jobs := Some 2%Z |} in
+  let pos := {| cf_fit_intercept := true; cf_copy_X := false; cf_positive := true; cf_n_jobs := None |} in
+  fit_ok default_config Xf [1; 2; 4] (-2#3) [3#2] = true
+  /\ fit_ok noic Xf [1; 2; 4] 0 [17#14] = true
+  /\ fit_ok noic Xf [1; 2; 4] (-2#3) [3#2] = false
+  /\ fit_ok default_config Xf [1; 2; 4] 0 [17#14] = false
+  /\ fit_ok pos Xf [4; 2; 1] (7#3) [0] = true
+  /\ fit_ok pos Xf [4; 2; 1] (16#3) [-3#2] = false
+  /\ fit_ok default_config Xf [4; 2; 1] (16#3) [-3#2] = true
+  /\ x_attr_ok [[Some 1; None]; [Some (1#2); Some 0]] [[Some 1; None]; [Some (1#2); Some 0]] = true
+  /\ x_attr_ok [[Some 1; None]; [Some (1#2); Some 0]] [[Some (1#2); None]; [Some 0; Some 0]] = false.
+Proof. vm_compute. repeat split; reflexivity. Qed.
+
 (** ** non-vacuity *)
 Example C17_example_listing :
   let summ := [[Some 1; Some 2]; [None; Some 0]; [Some (1#2); Some (-1)]; [Some 3; Some 1]] in
